@@ -74,6 +74,11 @@ def chain(rec, ops):
             evs.append({"ev": "RevComp", "pre": pre, "exc": exc, "post": project.project(out) if exc == "" else pre})
             if exc == "":
                 cur = out
+        elif kind == "COMM":
+            k = op[1]
+            res, exc = _exc(lambda: ((cur >> k).reverse_complement(), cur.reverse_complement() << k))
+            evs.append({"ev": "Commute", "pre": pre, "k": k, "exc": exc,
+                        "a": project.project(res[0]) if exc == "" else pre, "b": project.project(res[1]) if exc == "" else pre})
         elif kind == "IN":
             q = op[1]
             res, exc = _exc(lambda: q in cur)
